@@ -659,7 +659,17 @@ func TestPropCountMaxInflight(t *testing.T) {
 				if res.Error == "" && (rt == 0 || rt > lastApplied) {
 					lastApplied = rt
 					lLow = l
-					errorMode = false // an applied answer ends the error mode (stale ones are skipped by the wrapper)
+					if errorMode {
+						// an applied answer ends the error mode (stale ones are skipped by the wrapper). Requests admitted
+						// while the server was failing were admitted under the fallback's own bound (the metered peak,
+						// at most the largest limit of the history); they are drained so that the ledger is judged
+						// against the limit that is in force from now on
+						for _, h := range handles {
+							h.fc.Release()
+						}
+						handles = nil
+					}
+					errorMode = false
 					lastKind, lastLimit = "refuse", res.Limit
 					if res.Accept {
 						lastKind = "accept"
